@@ -12,958 +12,855 @@ Definition show_fres (r : fres) : string :=
   end.
 Definition check (rs : list rune) : string := digest (show_fres (format_res rs)).
 Definition full (rs : list rune) : string := show_fres (format_res rs).
-Eval vm_compute in ("<<<M1360>>>" ++ check (runes_of_ascii "options { // c1
-FixedStringPadFromLeft // c2a
-  // c2b
-= true // c4
-; FixedStringPadChar // c6
-= // c7
-'0' ; // c9a
-  // c9b
-} // c10
-packet
-    // c11
-Leg { repeat // c14
-InSym93 // c15
-{ zchar[
-    // c17
-3 // c18a
-  // c18b
-] // c19
-Acct
-    // c20
-, // c21a
-  // c21b
-string // c22a
-  // c22b
-Side2 , // c24a
-  // c24b
-i32 // c25
-Flags ,
-    // c27
-f32 // c28
-Note , i32 // c31a
-  // c31b
-msgKind
-    // c32
-, } // c34
-, // c35
-f64
-    // c36
-Note ,
-    // c38
-uint16 Px // c40a
-  // c40b
-, // c41
-} packet // c43a
-  // c43b
-Quote // c44
-{ zchar[ // c46
-2 // c47a
-  // c47b
-] OrderId // c49a
-  // c49b
-,
-    // c50
-}
-    // c51
-packet Ack
-    // c53
-{ // c54
-repeat // c55a
-  // c55b
-string // c56
-lastPx , zchar[ 4 // c60
-] price , // c63
-uint32 // c64
-OrderId , Quote // c67a
-  // c67b
-, int8
-    // c69
-Acct
-    // c70
-, } packet
-    // c73
-Fill
-    // c74
-{
-    // c75
-repeat
-    // c76
-Leg
-    // c77
-, // c78a
-  // c78b
-@rightPad
-    // c79
-(
-    // c80
-'0'
-    // c81
-) // c82a
-  // c82b
-char[ 11 ] // c85
-Note
-    // c86
-,
-    // c87
-f64
-    // c88
-Px // c89
-, // c90
-@rightPad
-    // c91
-( '\x00' // c93a
-  // c93b
-)
-    // c94
-char[
-    // c95
-5 // c96
-] // c97
-Flags , zchar[
-    // c100
-9
-    // c101
-] // c102a
-  // c102b
-x // c103
-, // c104
-string msgKind , // c107
-}
-    // c108
-root packet
-    // c110
-Order // c111
-{ Leg , // c114
-repeat Ack , // c117
-@rightPad (
-    // c119
-'\x00' )
-    // c121
-char[ // c122
-3 // c123a
-  // c123b
-]
-    // c124
-Side2 // c125a
-  // c125b
-, // c126a
-  // c126b
-repeat // c127a
-  // c127b
-char[
-    // c128
-1 ] // c130
-seqNo // c131
-, u16 // c133
-clOrdID // c134a
-  // c134b
-, match
-    // c136
-clOrdID
-    // c137
-as // c138
-Body { // c140
-198 // c141
-:
-    // c142
-Leg
-    // c143
-, 23 // c145a
-  // c145b
-: // c146a
-  // c146b
-Quote // c147a
-  // c147b
-, // c148a
-  // c148b
-13 // c149a
-  // c149b
-:
-    // c150
-Ack // c151a
-  // c151b
-, 159 // c153a
-  // c153b
-: Fill // c155
-, // c156
-} // c157a
-  // c157b
-, u32 venue @calculatedFrom( ""CRC32"" ) // c163a
-  // c163b
-, // c164
-} // c165a
-  // c165b
-")).
-Eval vm_compute in ("<<<M383>>>" ++ check (runes_of_ascii "options {
-	StringPrefixLenType = u16;
-	ArrayPrefixLenType = u16;
-}
-
-packet SampleBinary {
-    uint16 MsgType `" ++ [28040; 24687; 31867; 22411]%N ++ runes_of_ascii "`,
-    u16 BodyLenght @lengthOf(Body) `" ++ [28040; 24687; 20307; 38271; 24230]%N ++ runes_of_ascii "`,
-    match MsgType as Body {
-        1 : Logon,
-        2 : Logout,
-        3 : Heartbeat,
-        4 : RiskControlRequest,
-        5 : RiskControlResponse,
+Eval vm_compute in ("<<<M1732>>>" ++ check (runes_of_ascii "packet Z9_ {
+    @calculatedFrom(""1"")
+    match body as u8x {
+        [7] : u,
+        [
+            7, 00, 00, ""a\""b"", """",
+            ""\n""
+        ] : charz,
+        1 : Packet,
+        """ ++ [28040; 24687]%N ++ runes_of_ascii """ : f32a,
+        00 : len,
     },
-        @calculatedFrom(""CRC32"")
-    u32 Ckecksum `" ++ [26657; 39564; 21644]%N ++ runes_of_ascii "`,
+    @lengthOf(calculatedFrom)
+    MetaDataX,
+    Packet @lengthOf(int),
+    repeat char[7] calculatedFrom,
+    @calculatedFrom(""a\\"")
+    zchar[255] f32a @calculatedFrom(""" ++ [233]%N ++ runes_of_ascii "t" ++ [233]%N ++ runes_of_ascii """),
+    @calculatedFrom(""a\""b"")
+    char[7] i8i8 @calculatedFrom(""a\\"") `crlf
+    line`,
+    zchar[0123456789] x `line1
+    line2`,
+    @leftPad()
+    repeat u64 stringy,
+    @lengthOf(x)
+    repeat body {
+        //	t
+        Z9_ {
+            repeat asx,
+            repeat crc i64_,
+            repeat rootA {
+                repeat rootA MetaDataX `line1
+                line2`,
+                match i64_ as calculatedFrom {
+                    7 : x,
+                    [7] : stringy,
+                    ""1"" : i8i8,
+                    [
+                        42, 10, 255, 0, 10,
+                        ""1"", """ ++ [233]%N ++ runes_of_ascii "t" ++ [233]%N ++ runes_of_ascii """
+                    ] : u,
+                    ""x y"" : i8i8,
+                },
+                uint64 _x `
+                `,
+                char[0] i64_ @calculatedFrom(""CRC32""),
+            },
+            x_y_z {
+                char[] T,
+            },
+        },
+        repeat u64 Foo `a\`,
+        uint8 uint8x,
+        match roots as chars {
+            1 : _x,
+            ""a\""b"" : uint8x,
+            42 : metadata,
+            // `tick` ""quote"" 'q'
+            [255, ""\n""] : zchar,
+            [
+                3, 4294967296, 0123456789,
+                """ ++ [233]%N ++ runes_of_ascii "t" ++ [233]%N ++ runes_of_ascii """, ""x y""
+            ] : metadata,
+            [""it's"", ""// no comment""] : Z9_,
+        },
+    },
+}// a // b
+
+MetaData rootA {
+    char[4294967296] msg_type,
+    char[] u128,
+    uint64 a1,
+    int8 crc,
+    Pad msg_type `doc`,
 }
 
-packet Logon {
-     @leftPad('0')
-    char[10] UserName `" ++ [29992; 25143; 21517]%N ++ runes_of_ascii "`,
-    string Password `" ++ [23494; 30721]%N ++ runes_of_ascii "`,
-    uint64 ClientId `" ++ [23458; 25143; 31471]%N ++ runes_of_ascii "ID`,
-    u16 HeartbeatInterval `" ++ [24515; 36339; 38388; 38548]%N ++ runes_of_ascii "`,
-}
-
-packet Logout {
-      @rightPad('0')
-    char[10] UserName `" ++ [29992; 25143; 21517]%N ++ runes_of_ascii "`,
-    uint64 ClientId `" ++ [23458; 25143; 31471]%N ++ runes_of_ascii "ID`,
-}
-
-packet Heartbeat {
-}
-
-packet RiskControlRequest {
-    string UniqueOrderId `" ++ [21807; 19968; 35746; 21333; 21495]%N ++ runes_of_ascii "`,
-    char[16] ClOrdID `" ++ [23458; 25143; 35746; 21333; 21495]%N ++ runes_of_ascii "`,
-    char[3] MarketID `" ++ [24066; 22330]%N ++ runes_of_ascii "id`,
-    char[12] SecurityID `" ++ [35777; 21048; 20195; 30721]%N ++ runes_of_ascii "`,
-    char Side `" ++ [20080; 21334; 26041; 21521]%N ++ runes_of_ascii "`,
-    char OrderType `" ++ [35746; 21333; 31867; 22411]%N ++ runes_of_ascii "`,
-    u64 Price `" ++ [20215; 26684]%N ++ runes_of_ascii "`,
-    u32 Qty `" ++ [25968; 37327]%N ++ runes_of_ascii "`,
-    repeat string ExtraInfo `" ++ [38468; 21152; 20449; 24687]%N ++ runes_of_ascii "`,
-    repeat SubOrder {
-    		char[16] ClOrdID `" ++ [23376; 35746; 21333; 21495]%N ++ runes_of_ascii "`,
-    		u64 Price `" ++ [23376; 35746; 21333; 20215; 26684]%N ++ runes_of_ascii "`,
-    		u32 Qty `" ++ [23376; 35746; 21333; 25968; 37327]%N ++ runes_of_ascii "`,
-    	},
-}
-
-packet RiskControlResponse {
-    string UniqueOrderId `" ++ [21807; 19968; 35746; 21333; 21495]%N ++ runes_of_ascii "`,
-    i32 Status `" ++ [29366; 24577]%N ++ runes_of_ascii "`,
-    string Msg `" ++ [32467; 26524; 20449; 24687]%N ++ runes_of_ascii "`,
-    repeat Detail,
-}
-
-packet Detail {
-    string RuleName `" ++ [35268; 21017; 21517; 31216]%N ++ runes_of_ascii "`,
-    u16 Code `" ++ [21407; 22240; 20195; 30721]%N ++ runes_of_ascii "`,
+//	t
+/// triple
+packet x_y_z {
+    @lengthOf(crc)
+    match packetx as f32a {
+        0123456789 : A,
+        00 : u,
+        // @lengthOf(
+    },
 }")).
-Eval vm_compute in ("<<<M1566>>>" ++ check (runes_of_ascii "
-root
-	packet
-    i64_  {
-    trueish
-    ,
+Eval vm_compute in ("<<<M1892>>>" ++ check (runes_of_ascii "root
+packet metadata
+{
+@lengthOf( options1  ) int32	zchar	@calculatedFrom(
+""// no comment"" )`
+`  ,
 
-    @calculatedFrom( ""abc""
-	)  @tag(
-7
+repeat
+
+    calculatedFrom 
+`it's`
+,	//
+match
+BodyLength
+
+    as
+lengthOf
+
+{  3/// triple
+  :  leftPad ,
+	}
+	,repeat
+	u128
+
+,  char[ 10
+
+    ] 
+chars, // @lengthOf(
+
+  falsey @calculatedFrom(  ""x y""
+
+    ) 	 // c
+    `{ , }` ,  @tag(
+42
 
     )
-    // c
-	  int16
-	asx , @calculatedFrom( ""a\\""
-)float32
+    float64
+    i64_
 
-crc
-@lengthOf(
+// packet A { u8 x, }
+	,
+	u8x
 
-    Foo)
-	, 
-@tag( // `tick` ""quote"" 'q'
-	42 // c
-	)zchar[
-    // c
-    	// packet A { u8 x, }
+@calculatedFrom(
 
-	7
-
-]asx
-    @lengthOf(
-    calculatedFrom  )
-
-`// not a comment` , //
-  repeat	zchar[
-1
-]	// a // b
-	As , 
-chars
-`two words`,
-
-    @calculatedFrom(  ""1"" )
-	@tag( 
-  // `tick` ""quote"" 'q'
-0123456789
-
-    )	@leftPad
-(
-'0' )
-	repeat
-char[]
-BodyLength
-`tab	here` ,
-} MetaData u128 // packet A { u8 x, }
-
-  {
-	u16
-
-i64_  ,
-float32 asx//
+""{,}"" )
 
 `two words` 
-, 	 //
-      i64
-    leftPad
 
-, 
-zchar[
-00 // `tick` ""quote"" 'q'
-    ]
-_x,  //
-}
-    MetaData
-    chars 
-	//
-	{Foo crc 
-`say ""hi""` 
-,	uint8
-    u
+    //	t
+    	// trailing space 
+  ,	@lengthOf(
+T
+)	char[
 
-`two words`
+    255
 
-    ,// " ++ [128512]%N ++ runes_of_ascii " emoji
-  f32
-    pack
-`crlf
-line`
-	, string
+] pack 
+`it's`, 
+match	MetaDataX
+    as
+	i64_
 
-_x
+    { 
+    //
+""" ++ [28040; 24687]%N ++ runes_of_ascii """	// @lengthOf(
+		:  Header,
+0 
 
-`" ++ [233]%N ++ runes_of_ascii "`
+    //
+	:x_y_z
+	3
+: // `tick` ""quote"" 'q'
+
+  int
+
+    ""abc""
+
+    // @lengthOf(
+	: u8x
+	,}, } packet i64_{
+
+    @rightPad 
+()	/// triple
+	pack 
+{match
+    MetaDataX
+as 
+trueish
+{ 1  // @lengthOf(
+: len
+	00: falsey // packet A { u8 x, }
+,
+    """" : 
+x  ,
+}	,
+} ,@tag( 1)
+
+char[]
+
+    int
+
+    @lengthOf( metadata
+
+)// packet A { u8 x, }
+    ,
+a1 @lengthOf(calculatedFrom
+
+)
+,
+    @tag(7
+    )
+tag
+	@lengthOf( u) , 
+BodyLength	/// triple
+	@calculatedFrom(  ""it's""  )	`say ""hi""`
+
+,  string
+
+msg_type
 
 ,  }
 
-packet
+    MetaData
 
-    x_y_z
-
-{
-
-} options  {
-
-    calculatedFrom = ""CRC32""
-crc
-	=  uint16 ;	u  =
-false Foo  =char
-
-    }// " ++ [128512]%N ++ runes_of_ascii " emoji
-")).
-Eval vm_compute in ("<<<M1361>>>" ++ check (runes_of_ascii "options
-
-{  FixedStringPadFromLeft
-= true
-	;
-FixedStringPadChar = '0' ;}packet
-
-Leg{ repeat InSym93
-	{
-
-zchar[
-3
-]
-	Acct,
-string
-Side2 , i32 Flags
-    ,f32
-	Note ,i32 msgKind ,
-
-    }	, f64
-Note	, uint16	Px
-
-    , }
-packet
-	Quote {zchar[2] 
-OrderId	, 
-}
-	packet Ack{ repeat	string
-lastPx 
-, 
-zchar[4 
-]price , uint32 OrderId
-	,	Quote,
-
-    int8
-
-    Acct
-
-    ,
-
-} packet	Fill
-
-    {repeat
-    Leg
-    ,
-
-    @rightPad
-
-    (
-	'0' 
-)	char[
-
-11 ]	Note , 
-f64  Px ,
-
-@rightPad  (	'\x00'
-
-    )	char[  5
-] Flags 
-, 
-zchar[
-9]
-x
-
-    ,string 
-msgKind ,
-} root
-    packet Order	{	Leg , repeat Ack 
-,
-@rightPad (
-    '\x00')
-char[
-3  ] Side2,
-
-    repeat
-    char[ 
-1
-]
-
-    seqNo
-
-,	u16
-
-    clOrdID
-    ,
-match
-    clOrdID
-
-as Body
-	{ 198 
-: Leg,
-
-    23
-:
-	Quote
-	, 13 
-:
-Ack ,159
-:
-	Fill
-,
-	}	,	u32	venue
-
-@calculatedFrom( 
-""CRC32"" 
-)
-    ,
-
-}")).
-Eval vm_compute in ("<<<M1443>>>" ++ check (runes_of_ascii "
-
-  root
-packet  lengthOf {  // a // b
-match  i64_ 
-as
-
-options1
-    { 
-""// no comment""	: 
-	// packet A { u8 x, }
-		f32a
-
-// @lengthOf(
+Logon	{
+BodyLength
+	_x
+`it's`
 	,
-	65535
-    :	falsey
+    int32 
+body
 
-,
-}
-,
-@tag(
+    , 
+    // trailing space 
 
-0 )
-char[]body
-@lengthOf(
+} root packet 
+body
+	{  }
 
-lengthOf 
-)
-	,u64	string_
-`it's`	, @lengthOf( string_  // packet A { u8 x, }
-)
-	crc{	repeat zchar[
-	3
-	]
-	u , 
-pack // packet A { u8 x, }
-  `a\`// trailing space 
-    	, char[]
-	crc ``, } 	 //x
-
-, int16 // packet A { u8 x, }
-  metadata  `line1
-line2`
-,
-
-    } root  packet	//	t
-leftPad  {	repeat
-zchar[	4294967296  //x
-
-] 
-MetaDataX 
-,
-
-@tag( 
-10 // `tick` ""quote"" 'q'
-  	)
-match  tag 
-as
-	falsey
-{ 7 :
-
-BodyLength  ,  0
-
-:i64_	,  } , 
-repeat char[ 255 
-    // @lengthOf(
-]
-A
-, char[
-
-    7]
-	trueish
-
-    @calculatedFrom(
-	""a\\"" ) `two words`  
-      // " ++ [128512]%N ++ runes_of_ascii " emoji
-  	//	t
-,
-i16 Logon  ,	}")).
-Eval vm_compute in ("<<<M1436>>>" ++ check (runes_of_ascii "root packet asx {
-    // `tick` ""quote"" 'q'
-    f32a,
-    @calculatedFrom(""abc"")
-    zchar[65535] metadata `
-        `,
-    @calculatedFrom(""CRC32"")
-    Header `doc`,
-    match f32a as msg_type {
-        [""\n""] : charz,
-        // @lengthOf(
-        0123456789 : pack,
-        //x
-        [
-            4294967296, ""packet"", """", ""`tick`"", ""CRC32"",
-            ""\n"", ""it's"", ""it's""
-        ] : charz,
-        42 : leftPad,
-        [
-            255, 7, ""packet"", ""{,}"", ""\" ++ [233]%N ++ runes_of_ascii """,
-            ""1"", ""1""
-        ] : msg_type,
-        [""" ++ [128512]%N ++ runes_of_ascii """] : i64_,
-    },
-}
-
-packet body {
-}
-
-root packet i64_ {
-    uint16 Header @calculatedFrom(""" ++ [233]%N ++ runes_of_ascii "t" ++ [233]%N ++ runes_of_ascii """) ``,
-    float64 string_ @calculatedFrom(""`tick`""),
-    repeat zchar[1] packetx `it's`,
-}//	t")).
-Eval vm_compute in ("<<<M1122>>>" ++ check (runes_of_ascii "// top
-options // c0
-{ // c1
-uint8x // c2
-= // c3
-007 // c4
-; // c5
-lengthOf // c6
-= // c7
-i8 // c8
-; // c9
-} // c10
-packet // c11
-i64_ // c12
-{ // c13
-@calculatedFrom( // c14
-""1"" // c15
-) // c16
-@tag( // c17
-3 // c18
-) // c19
-@lengthOf( // c20
-rootA // c21
-) // c22
-repeat // c23
-int8 // c24
-Packet // c25
-`u8 x,` // c26
-, // c27
-} // c28
-root // c29
-packet // c30
-stringy // c31
-{ // c32
-@rightPad // c33
-( // c34
-' ' // c35
-) // c36
-repeat // c37
-char[ // c38
-10 // c39
-] // c40
-repeatCount // c41
-, // c42
-@tag( // c43
-255 // c44
-) // c45
-float64 // c46
-msg_type // c47
-@calculatedFrom( // c48
-""packet"" // c49
-) // c50
-, // c51
-} // c52
 ")).
-Eval vm_compute in ("<<<M113>>>" ++ check (runes_of_ascii "options	{
-As
-= // packet A { u8 x, }
-' '}MetaData o{} root packet pack
-{ } packet tag // " ++ [128512]%N ++ runes_of_ascii " emoji
-{ match falsey as
-BodyLength	{ 4294967296
+Eval vm_compute in ("<<<M1866>>>" ++ check (runes_of_ascii "
+
+  options { matchKey
+
+=
+
+    ""x y"" 
+; MetaDataX
+
+=
+	'0'
+
+    ;  }  packet	// c
+
+msg_type 
+{
+@rightPad(
+
+    ' ' )repeat  u128 body  ,match
+    body as /// triple
+    	pack {  [	""\" ++ [233]%N ++ runes_of_ascii """,
+
+""1""] 
 :
-    lengthOf
-// c
-// " ++ [27880; 37322]%N ++ runes_of_ascii "
-,[ ""x y""
-,""a\\""
-    ]
-    : rootA , [
-42 , ""a	b"" ,
-    ""CRC32"" , 65535 ,""abc"" , 007 ]
-:
-u8x	""x y"" : A ,
-    /// triple
-    65535 :  i64_,
-    0123456789 :
-    Packet }
-    , @lengthOf(  msg_type)	pack msg_type,
-    @tag( 0 )@lengthOf( Packet
-)/// triple
-@tag(
-3 )
-//	t
-// " ++ [128512]%N ++ runes_of_ascii " emoji
-Foo , repeat float64 zchar, @calculatedFrom(
-""a\""b""
-) @lengthOf(A )@lengthOf( roots
-) options1 @lengthOf(
-Z9_ ),char[] T ,  }")).
-Eval vm_compute in ("<<<M1925>>>" ++ check (runes_of_ascii "packet pack {
-    u8 x,
-    char[255] trueish @calculatedFrom(""// no comment"") `tab	here`,
-    @lengthOf(asx)
-    repeat zchar[0] stringy `
-        `,
-    @leftPad('0')
-    @calculatedFrom(""abc"")
-    @calculatedFrom(""it's"")
-    char[] packetx @calculatedFrom(""a	b"") `doc`,
-    repeat string len `two words`,
-    uint16 matchKey @lengthOf(asx),
-    zchar[0] x `it's`,
-}
 
-packet packetx {
-    body,
-    string trueish `" ++ [233]%N ++ runes_of_ascii "`,
-    @tag(255)
-    @tag(3)
-    @calculatedFrom(""\n"")
-    repeat f64 roots `" ++ [233]%N ++ runes_of_ascii "`,/// triple
-}")).
-Eval vm_compute in ("<<<M138>>>" ++ check (runes_of_ascii "packet Header{ char[	10
-] A`it's` , @calculatedFrom(	""" ++ [28040; 24687]%N ++ runes_of_ascii """)calculatedFrom // a // b
-@lengthOf( zchar ) `tab	here` ,  u32	BodyLength,
-@lengthOf(
-    stringy  ) //
-@rightPad (
-    ' ') @tag(
-0123456789 )
-body{ match i8i8 as
-Foo
-{ [ 7 ,	""CRC32"" ] : options1 ,[""a\""b"" , """ ++ [128512]%N ++ runes_of_ascii """ ,
-    ""it's""
-    , ""a	b"" ,
-""// no comment"" , ""it's"" , 7,""abc""  ] :
-As  ,
-1 :
-_x
-// " ++ [128512]%N ++ runes_of_ascii " emoji
-//
-} , repeat  uint8x{crc
-@calculatedFrom( ""a\\""
-), } ,
-    repeat  i8 tag ,// " ++ [128512]%N ++ runes_of_ascii " emoji
-}
-, }
-
-")).
-Eval vm_compute in ("<<<M1631>>>" ++ check (runes_of_ascii "root packet Logon {
-    @calculatedFrom("""")
-    @lengthOf(int)
-    @tag(3)
-    match _x as i64_ {
-        10 : asx,
-        // `tick` ""quote"" 'q'
-        /// triple
-        """ ++ [128512]%N ++ runes_of_ascii """ : crc,
-        [0, 007] : float,
-    },
-    repeat uint16 leftPad,
-}
-
-// " ++ [27880; 37322]%N ++ runes_of_ascii "
-packet charz {
-}
-
-MetaData int {
-    zchar[4294967296] matchKey,
-    asx rootA `doc`,
-    Foo string_ `// not a comment`,
-    char[] u8x,
-    roots float,
-}")).
-Eval vm_compute in ("<<<M1139>>>" ++ check (runes_of_ascii "// top
-MetaData
-    // c0
-leftPad
-    // c1
-{
-    // c2
-chars
-    // c3
-MetaDataX
-    // c4
+BodyLength 
 ,
-    // c5
-}
-    // c6
-packet
-    // c7
-repeatCount
-    // c8
-{
-    // c9
-char[
-    // c10
-255
-    // c11
-]
-    // c12
-uint8x
-    // c13
-`" ++ [233]%N ++ runes_of_ascii "`
-    // c14
-,
-    // c15
-}
-    // c16
-MetaData
-    // c17
-pack
-    // c18
-{
-    // c19
-As
-    // c20
-Foo
-    // c21
-,
-    // c22
-}
-    // c23
-")).
-Eval vm_compute in ("<<<M77>>>" ++ check (runes_of_ascii "
-packet	float { char[ 42] int`say ""hi""` , @tag( 255// packet A { u8 x, }
-) match// a // b
-stringy  as
-    x { [ 00 ,42
-]: i64_ 42 : matchKey , [ ""1"" , 1
-, 42
+
+[
+255 ,""a	b""
+    , ""a\\""
+
+, ""{,}""
     ,
-""" ++ [28040; 24687]%N ++ runes_of_ascii """ , ""abc"" ,
-// a // b
-//x
-1 // trailing space 
-]
-: //
-roots
-,
-    65535
-: trueish ,	} ,@calculatedFrom( ""{,}"" )body @calculatedFrom(""" ++ [28040; 24687]%N ++ runes_of_ascii """ ) , zchar[
-    007 ] lengthOf, }
-")).
-Eval vm_compute in ("<<<M1832>>>" ++ check (runes_of_ascii "packet
-A
+    007 ,
+	007 ,  0123456789
 
-    {	u8
-
-a , 
-} packet  B  {u16
-
-    b 
-,	}
-	packet
-
-    C
-{
-    u32
-	c, } root packet
-M	{u16
-	Kc  ,
-
-u16
-	Kb ,
-
-    u16 Ka
-    ,match
-    Kc
-
-as X {
-9 :
-
-    A  , 
-10 
-:
-    B,}
-
-    ,
-match Kb
-	as
-	Y
-{ 
-2	:C  , 
-1  :A ,
-    }
-, match Ka as Z
-
-{
-	1:B ,
-	},
-A
-	, B ,C
-
-    ,
-}
-")).
-Eval vm_compute in ("<<<M1463>>>" ++ check (runes_of_ascii "
-
-  packet trueish{ @leftPad	(	// @lengthOf(
-	'0'	)@tag(
-
-3 /// triple
+    ]:
+    options1 
+,} 
+, @leftPad (
 	)
-@tag(
+@lengthOf( charz
+) @tag( 42
 
-    7
-)
+    )	o
 
-    repeat
+    {i32
 
-//x
-// @lengthOf(
-  matchKey  { u32
-u
+    msg_type
 
-    ,
-	},
-    @lengthOf( chars
-)
-@calculatedFrom( 
-""a	b""
-) 
-@tag(
-	0123456789 )	zchar[ 255	]Pad 
-, }	root packet
-
-u 
-{
-    }")).
-Eval vm_compute in ("<<<M361>>>" ++ check (runes_of_ascii "MetaData BodyLength { uint16 leftPad `" ++ [233]%N ++ runes_of_ascii "` // a // b
-, uint8x asx,
-    len lengthOf `// not a comment` ,
-string uint8x `doc`
-, }options {i8i8 = 0
-lengthOf =
-    0123456789 ; } packet uint8x { @lengthOf(
-pack ) float64
-u8x@lengthOf(asx //x
-)
-, }
-")).
-Eval vm_compute in ("<<<M358>>>" ++ check (runes_of_ascii "
-packet matchKey	{ // @lengthOf(
-@lengthOf(
-a1 ) string_
-T`" ++ [28040; 24687; 31867; 22411]%N ++ runes_of_ascii "`, //
-} packet body {f32 _x  , packetx @lengthOf(
-options1 ) // packet A { u8 x, }
-`` , @leftPad ( ' ') i16 crc ,@calculatedFrom(
-""" ++ [128512]%N ++ runes_of_ascii """
-)	Pad
-, } //")).
-Eval vm_compute in ("<<<M1626>>>" ++ check (runes_of_ascii "packet T
-
-    {	int	u
-
-    ,
-
-@calculatedFrom( 
-""\" ++ [233]%N ++ runes_of_ascii """)// `tick` ""quote"" 'q'
-  repeat// @lengthOf(
-	string  x_y_z	// a // b
-
+@lengthOf( A) // " ++ [27880; 37322]%N ++ runes_of_ascii "
+    	`doc`
 ,
-uint32  // `tick` ""quote"" 'q'
-int`crlf
-line`	,}
+	zchar[ 1
+] 
+charz,	// c
+  i8	packetx
+`{ , }`,
+
+    msg_type
+    `crlf
+line`
+
+    ,	}
+, @calculatedFrom( ""\" ++ [233]%N ++ runes_of_ascii """
+)	Z9_
+
+@calculatedFrom( """ ++ [128512]%N ++ runes_of_ascii """ 
+) `tab	here`
+    ,
+repeat
+    char[]
+
+Foo,
+
+repeat
+
+    zchar[
+
+    0123456789]u128  , }packet f32a  { 
+f32a
+
+    @lengthOf(matchKey)	//x
+    	,
+	@rightPad (
+	' ' // " ++ [27880; 37322]%N ++ runes_of_ascii "
+	  ) 
+@lengthOf(chars	)
+_x Foo `` , 
+match
+    body  // c
+
+	as
+	body{[
+
+4294967296,
+    ""packet"" 
+,3 
+,  """ ++ [128512]%N ++ runes_of_ascii """ ,0123456789
+
+    ] :
+T  [
+""a\\""
+    ]	// `tick` ""quote"" 'q'
+
+:
+    T 
+,
+	""\n"":
+
+u8x
+
+, 
+} 
+  //	t
+    	//x
+    ,
+}//x
+
+	root
+
+packet
+lengthOf  { }
 ")).
-Eval vm_compute in ("<<<M1846>>>" ++ check (runes_of_ascii "packet A {
-    match k as n {
-        [
-            1, 22, 4, 5, 7,
-            8, 10, 11, ""c c"", ""f"",
-            ""i"", ""l""
-        ] : B,
-        2 : C,
+Eval vm_compute in ("<<<M13>>>" ++ check (runes_of_ascii "root
+    packet	roots{ // `tick` ""quote"" 'q'
+} options	{	asx =
+    ""\n"" ; x_y_z =
+3 ;rootA = ""CRC32""
+    ;float=char  T = false
+; }
+packet falsey {
+body { match u8x as /// triple
+string_{ [
+42,7 ,65535
+    ,
+    3 ,
+    42 ,7 , ""1""
+    , ""packet"" ]:
+    // `tick` ""quote"" 'q'
+    i64_ , [ ""abc""]
+    :  Foo ,	""a\\""
+    :
+roots ,
+    4294967296 :	stringy	}
+    , //x
+asx
+`{ , }` // " ++ [128512]%N ++ runes_of_ascii " emoji
+, i8
+charz@lengthOf( // trailing space 
+x_y_z)// trailing space 
+`a\` ,}
+    // @lengthOf(
+    , @tag( 65535 ) i64_ @lengthOf( tag )`u8 x,`
+// a // b
+//	t
+,Z9_@lengthOf( int )
+, @calculatedFrom( ""a\""b""
+)uint16  stringy @lengthOf( trueish ) , Logon	{string  Logon `say ""hi""` , packetx
+i64_ , match msg_type as	float
+{ ""\n"" : i64_,	[
+""" ++ [128512]%N ++ runes_of_ascii """
+    ]
+:
+metadata , // `tick` ""quote"" 'q'
+[
+// trailing space 
+// " ++ [128512]%N ++ runes_of_ascii " emoji
+10, ""1""  ]
+:zchar ,
+}
+    , //x
+}
+    //x
+    , Packet
+    @calculatedFrom(""CRC32"" ), }
+")).
+Eval vm_compute in ("<<<M1605>>>" ++ check (runes_of_ascii "// top
+options {
+    // c1a
+    // c1b
+    StringPrefixLenType = u8;
+    // c5
+    ArrayPrefixLenType = u8;// c9
+    FixedStringPadFromLeft = false;// c13
+    FixedStringPadChar = ' ';// c17a
+}
+
+packet Ack {
+    // c21a
+    // c21b
+    char[] tag7,// c24a
+}
+
+packet Reject {
+    InSym61 {
+        // c30
+        repeat Ack,// c33a
+        // c33b
+        zchar[4] f1,
+    },// c40
+}
+
+// c41
+packet Logout {
+    // c44
+    char[4] clOrdID,// c49
+}// c50
+
+root packet Cancel {
+    @leftPad(' ')
+    // c58
+    char[10] price,
+    u8 x,// c66a
+    // c66b
+    u32 venue @lengthOf(Body),// c72a
+    // c72b
+    match x as Body {
+        [92, 175] : Logout,
+        // c85
+        26 : Reject,
+        // c89a
+        // c89b
+        144 : Ack,
+        // c93
+    },// c95
+    u16 count @calculatedFrom(""CRC32""),// c101
+}// c102a")).
+Eval vm_compute in ("<<<M1698>>>" ++ check (runes_of_ascii "// packet A { u8 x, }
+root packet leftPad {
+    @calculatedFrom(""`tick`"")
+    @rightPad()
+    // " ++ [128512]%N ++ runes_of_ascii " emoji
+    string_ @lengthOf(tag) `a\`,
+    i64 T `" ++ [233]%N ++ runes_of_ascii "`,//	t
+}
+
+packet Pad {
+    @lengthOf(float)
+    char[] x @calculatedFrom(""a\""b""),// trailing space 
+    @tag(0)
+    // " ++ [27880; 37322]%N ++ runes_of_ascii "
+    repeatCount,
+    repeat rootA {
+        _x,
+        zchar[3] roots `crlf
+                line`,
     },
+    /// triple
+    // a // b
+    match metadata as BodyLength {
+        [
+            10, 10, 4294967296, ""a\""b"", """",
+            ""\n"", ""a\\""
+        ] : u,
+    },
+    repeat i64_ Packet `" ++ [28040; 24687; 31867; 22411]%N ++ runes_of_ascii "`,
+    @tag(65535)
+    char[] float `it's`,
+    char[7] x @calculatedFrom(""{,}""),
+}
+
+MetaData leftPad {
+    body rootA `crlf
+        line`,
+    int64 msg_type `doc`,
 }")).
+Eval vm_compute in ("<<<M117>>>" ++ check (runes_of_ascii "// a // b
+packet	u128  {
+    repeat chars	{i64 u8x
+`
+`// a // b
+, // c
+_x
+@lengthOf(  falsey
+    )
+,
+    Logon
+`" ++ [28040; 24687; 31867; 22411]%N ++ runes_of_ascii "` ,repeat char[]
+trueish `tab	here` ,}
+    , } root packet T { match Packet
+as
+trueish {
+""packet"" : charz
+    ,
+    [4294967296 , ""1"" ] : A , 7 : x
+    // " ++ [27880; 37322]%N ++ runes_of_ascii "
+    , [
+    // a // b
+    7 ,""a	b""
+    ]
+:	u128 255 :
+As
+    3:
+Packet,} ,
+//	t
+// trailing space 
+pack
+`a\` , @calculatedFrom( """ ++ [233]%N ++ runes_of_ascii "t" ++ [233]%N ++ runes_of_ascii """ //	t
+)
+    rootA matchKey  ,
+char[ 65535]/// triple
+leftPad @lengthOf( roots
+    //
+    ) , repeat MetaDataX { u64
+    a1 @calculatedFrom(""x y"" ) `doc`  ,//	t
+uint8 falsey
+,
+match BodyLength as A
+{  [ ""\" ++ [233]%N ++ runes_of_ascii """,255 ,"""" ,
+    ""it's"" ] :	Foo ,
+3 : u128}	, } ,	}
+")).
+Eval vm_compute in ("<<<M1335>>>" ++ check (runes_of_ascii "
+options {
+
+LittleEndian = 
+false
+
+;
+ArrayPrefixLenType
+
+= 
+u8
+    ; FixedStringPadFromLeft
+    =true;
+    FixedStringPadChar
+
+    = '0'  ; } packet
+Heartbeat
+    { string lastPx	,
+    uint8  Qty
+
+    ,
+    i64
+Acct  , char[ 4] Ref ,
+
+    }packet Fill{
+uint8
+Ref
+,
+Heartbeat
+,
+f32
+    OrderId 
+,
+	repeat f32 x
+
+,}
+	root packet	Order  {
+
+    zchar[
+2
+
+]
+OrderId ,zchar[ 2
+]
+Acct ,
+	zchar[
+1 ]
+
+Note
+    ,	zchar[
+9  ]	Qty
+    , string	price
+
+    , string
+    tag7 , u32
+
+    x  ,	match x
+as
+Body
+	{
+    123	:Fill
+    , 112
+:
+
+    Heartbeat
+,
+}
+,u32
+seqNo@calculatedFrom(  ""CRC32"" )	, } ")).
+Eval vm_compute in ("<<<M327>>>" ++ check (runes_of_ascii "root packet asx
+    { tag body `u8 x,` , }
+packet string_ {
+    @lengthOf(
+len // a // b
+)repeat	zchar[ 42 ] u8x,zchar[ 0 ] asx
+    , } packet
+// " ++ [128512]%N ++ runes_of_ascii " emoji
+// " ++ [27880; 37322]%N ++ runes_of_ascii "
+int {repeat crc
+    { zchar float , match
+    i8i8 as rootA//x
+{ 255 : lengthOf , 1 :lengthOf
+,3
+    :
+roots , 3 : uint8x ,0
+    :As , ""`tick`"" :	repeatCount , }  , repeat
+/// triple
+//
+char[]
+falsey ,
+    u64 lengthOf ,} , @lengthOf( crc ) lengthOf i64_ , leftPad
+`crlf
+line`, }
+    root	packet zchar{ f32 _x @calculatedFrom( ""a\\"" ), }	MetaData chars // trailing space 
+{//
+}")).
+Eval vm_compute in ("<<<M210>>>" ++ check (runes_of_ascii "MetaData tag {
+//
+//
+char[// a // b
+3 ] // a // b
+msg_type
+    // c
+    , char[7 ] options1
+,
+    // trailing space 
+    float crc
+,calculatedFrom pack ,int64 u  `a\`,}
+packet leftPad{char[
+    1
+]
+    /// triple
+    zchar
+,
+    //
+    } packet crc { // c
+@lengthOf( packetx	) @lengthOf( asx)
+@lengthOf( packetx ) calculatedFrom {	f32 packetx	``
+// packet A { u8 x, }
+//x
+, },
+} options { Z9_
+= ""\" ++ [233]%N ++ runes_of_ascii """
+    // a // b
+    float = ' ' ; packetx = ""x y""
+    calculatedFrom  = int16
+    ;
+}")).
+Eval vm_compute in ("<<<M1113>>>" ++ check (runes_of_ascii "// top
+packet // c0
+float // c1
+{ // c2
+@rightPad // c3
+( // c4
+) // c5
+rootA // c6
+@lengthOf( // c7
+trueish // c8
+) // c9
+, // c10
+stringy // c11
+@lengthOf( // c12
+matchKey // c13
+) // c14
+, // c15
+char[ // c16
+4294967296 // c17
+] // c18
+pack // c19
+@lengthOf( // c20
+uint8x // c21
+) // c22
+, // c23
+} // c24
+root // c25
+packet // c26
+trueish // c27
+{ // c28
+repeat // c29
+uint64 // c30
+u128 // c31
+`line1
+line2` // c32
+, // c33
+} // c34
+")).
+Eval vm_compute in ("<<<M303>>>" ++ check (runes_of_ascii "  packet
+    tag{ } packet
+    //
+    packetx { @calculatedFrom( ""x y""
+    )@tag(
+    42 )
+@lengthOf(
+    As  ) char a1`two words` ,
+    @leftPad
+(
+    '\x00' )
+    @tag(10)
+@lengthOf( u)
+    char[] falsey // " ++ [128512]%N ++ runes_of_ascii " emoji
+,
+    // " ++ [27880; 37322]%N ++ runes_of_ascii "
+    }//
+MetaData
+f32a {
+    string u128 , roots
+    stringy , Header body,
+    float options1
+    //	t
+    `it's`
+    ,	i8i8 options1
+`" ++ [28040; 24687; 31867; 22411]%N ++ runes_of_ascii "`
+    ,
+}")).
+Eval vm_compute in ("<<<M248>>>" ++ check (runes_of_ascii "packet a1
+    { char[]	charz @calculatedFrom(
+    //x
+    """ ++ [28040; 24687]%N ++ runes_of_ascii """)
+,
+    uint8x`crlf
+line`
+    , uint64 T  `line1
+line2` ,
+    @leftPad (
+'0')
+// a // b
+/// triple
+@calculatedFrom( ""abc"" )
+@tag( 3 ) match
+int // a // b
+as len
+{ 0	:  chars, [ 10, ""a\\"",
+1 ,0 ,10 , 0
+    ] : body, 007 :
+    // a // b
+    rootA // a // b
+, } , falsey options1 , }
+")).
+Eval vm_compute in ("<<<M79>>>" ++ check (runes_of_ascii "packet	Pad //
+{ u32 i64_
+@lengthOf(u8x) `tab	here` , T,
+@tag(
+1) @calculatedFrom(	""CRC32""
+)
+    @leftPad ()
+    match stringy as lengthOf	{[ 255  ,	7
+    ,
+""CRC32""
+,""a	b"" , """ ++ [233]%N ++ runes_of_ascii "t" ++ [233]%N ++ runes_of_ascii """ ,// c
+""a\""b""
+    , ""\n"" ]: falsey  , /// triple
+} ,string i8i8// trailing space 
+@calculatedFrom( """ ++ [128512]%N ++ runes_of_ascii """
+    ) ,packetx, } // c")).
+Eval vm_compute in ("<<<M1138>>>" ++ check (runes_of_ascii "// top
+MetaData // c0
+leftPad // c1
+{ // c2
+chars // c3
+MetaDataX // c4
+, // c5
+} // c6
+packet // c7
+repeatCount // c8
+{ // c9
+char[ // c10
+255 // c11
+] // c12
+uint8x // c13
+`" ++ [233]%N ++ runes_of_ascii "` // c14
+, // c15
+} // c16
+MetaData // c17
+pack // c18
+{ // c19
+As // c20
+Foo // c21
+, // c22
+} // c23
+")).
+Eval vm_compute in ("<<<M242>>>" ++ check (runes_of_ascii "packet len{} options	{ Z9_ =  4294967296;
+_x =// a // b
+0
+    f32a = zchar[42	] ; } root packet
+    // @lengthOf(
+    BodyLength // trailing space 
+{ }options {
+string_ =u32	;	charz =
+/// triple
+// packet A { u8 x, }
+string
+; } packet len { }")).
+Eval vm_compute in ("<<<M21>>>" ++ check (runes_of_ascii "packet  Logon //	t
+{pack	_x
+    ,
+Z9_ i8i8  `" ++ [28040; 24687; 31867; 22411]%N ++ runes_of_ascii "`	, } options
+    { tag	= 4294967296 ; As = string
+    ; rootA = true ; }root packet f32a { //x
+@leftPad
+// " ++ [27880; 37322]%N ++ runes_of_ascii "
+// c
+(' ') repeat _x`" ++ [233]%N ++ runes_of_ascii "`	, @rightPad ( )i8i8 len,}
+
+")).
+Eval vm_compute in ("<<<M1826>>>" ++ check (runes_of_ascii "
+
+  packet
+// `tick` ""quote"" 'q'
+    	_x  {	//
+		repeat  zchar[
+    1 ]metadata	,	@leftPad
+(' '	)	@lengthOf( T)@lengthOf(  Z9_  ) char[] As // @lengthOf(
+
+	,
+	string 
+f32a	,
+    } ")).
+Eval vm_compute in ("<<<M152>>>" ++ check (runes_of_ascii "packet T {
+int u ,
+@calculatedFrom( ""\" ++ [233]%N ++ runes_of_ascii """ ) // `tick` ""quote"" 'q'
+repeat// @lengthOf(
+string	x_y_z// a // b
+,
+uint32// `tick` ""quote"" 'q'
+int `crlf
+line` , }
+")).
 Eval vm_compute in ("<<<M521>>>" ++ check (runes_of_ascii "packet uint8x
 { match pack
     as msg_type	{
@@ -975,29 +872,33 @@ a1
     { } options {packetx
     = '\x00'	; u128= ""a	b"" ""a	b""  ; }
 ")).
-Eval vm_compute in ("<<<M150>>>" ++ check (runes_of_ascii "packet
-    //	t
-    Logon {
-metadata
-@calculatedFrom( ""a\\"" ) , @tag( 42 ) // " ++ [128512]%N ++ runes_of_ascii " emoji
-@tag(	65535 )
-repeat u16 o `line1
-line2` ,
-} packet float { }
-
-")).
-Eval vm_compute in ("<<<M539>>>" ++ check (runes_of_ascii "packet uint8x
+Eval vm_compute in ("<<<M426>>>" ++ check (runes_of_ascii "packet uint8x
 { match pack
-    as msg_type	{
+    as msg_type	{ {
     0123456789 :	float
 }
 ,
-} p" ++ [8232]%N ++ runes_of_ascii "acket //	t
+} packet //	t
 a1
     { } options {packetx
     = '\x00'	; u128= ""a	b""  ; }
 ")).
-Eval vm_compute in ("<<<M497>>>" ++ check (runes_of_ascii "packet uint8x
+Eval vm_compute in ("<<<M1299>>>" ++ check (runes_of_ascii "packet A {
+    u8 a,
+}
+packet B {
+    u16 b,
+}
+root packet P {
+    u8 K,
+    match K as M {
+        [1, 2] : A,
+        3 : B,
+        7 : A,
+    },
+}
+")).
+Eval vm_compute in ("<<<M512>>>" ++ check (runes_of_ascii "packet uint8x
 { match pack
     as msg_type	{
     0123456789 :	float
@@ -1006,230 +907,214 @@ Eval vm_compute in ("<<<M497>>>" ++ check (runes_of_ascii "packet uint8x
 } packet //	t
 a1
     { } options {packetx
-    '\x00' =	; u128= ""a	b""  ; }
+    = '\x00'	; =u128 ""a	b""  ; }
 ")).
-Eval vm_compute in ("<<<M272>>>" ++ check (runes_of_ascii "packet _x	{ } packet BodyLength { int64
-Packet
-@lengthOf( float ),
-options1 /// triple
-{rootA x	, u8
-Packet @calculatedFrom( """ ++ [28040; 24687]%N ++ runes_of_ascii """) `it's`  ,
-} , }")).
-Eval vm_compute in ("<<<M661>>>" ++ check (runes_of_ascii "// @lengthOf(
-packet i8i8 { u128 o o , }
+Eval vm_compute in ("<<<M465>>>" ++ check (runes_of_ascii "packet uint8x
+{ match pack
+    as msg_type	{
+    0123456789 :	float
+}
+,
+} packet //	t
+
+    { } options {packetx
+    = '\x00'	; u128= ""a	b""  ; }
+")).
+Eval vm_compute in ("<<<M687>>>" ++ check (runes_of_ascii "// @lengthOf(
+packet i8i8 { u128 o , , }
 options { MetaDataX = true;
     BodyLength =""packet"" x_y_z= 007
 crc //x
 = ""abc"" ;
     msg_type =
 i16 }")).
-Eval vm_compute in ("<<<M529>>>" ++ check (runes_of_ascii "packet uint8x
-{ match pack
-    as msg_type	{
-    0123456789 :	float
-}
-,
-} packet //	t
-a1
-    { } options {packetx
-    = '\x00'	; u128= ""a	b""")).
-Eval vm_compute in ("<<<M688>>>" ++ check (runes_of_ascii "// @lengthOf(
+Eval vm_compute in ("<<<M685>>>" ++ check (runes_of_ascii "// @lengthOf(
 packet i8i8 { u128 o , }
 options { MetaDataX = true;
     BodyLength =""packet"" x_y_z= 007
 crc //x
 = ""abc"" ;
+    = msg_type
+i16 }")).
+Eval vm_compute in ("<<<M650>>>" ++ check (runes_of_ascii "// @lengthOf(
+packet i8i8 { u128 o , }
+options { MetaDataX = true;
+    BodyLength =""packet"" x_y_z= 007
+crc //x
+=  ;
     msg_type =
-i16")).
-Eval vm_compute in ("<<<M1900>>>" ++ check (runes_of_ascii "packet A {
-    match k as n {
-        [
-            1, 22, 007, 4, 5,
-            66, 7, 8, 9, 10
-        ] : B,
-        2 : C,
-    },
-}")).
-Eval vm_compute in ("<<<M1896>>>" ++ check (runes_of_ascii "// c
-MetaData leftPad {
-    chars MetaDataX,
+i16 }")).
+Eval vm_compute in ("<<<M719>>>" ++ check (runes_of_ascii "// @lengthOf(
+packet i8i8 { u128 o , }
+options { MetaDataX = true;
+     =""packet"" x_y_z= 007
+crc //x
+= ""abc"" ;
+    msg_type =
+i16 }")).
+Eval vm_compute in ("<<<M343>>>" ++ check (runes_of_ascii "packet Header { repeat char[  0123456789 ]BodyLength`" ++ [28040; 24687; 31867; 22411]%N ++ runes_of_ascii "`/// triple
+, zchar[ 3
+    ] chars
+    ,// trailing space 
+A, } //")).
+Eval vm_compute in ("<<<M1153>>>" ++ check (runes_of_ascii "MetaData leftPad { chars MetaDataX , // c
+} packet repeatCount { char[ 255 ] uint8x `" ++ [233]%N ++ runes_of_ascii "` , } MetaData pack { As Foo , }")).
+Eval vm_compute in ("<<<M1185>>>" ++ check (runes_of_ascii "MetaData leftPad { chars MetaDataX , } packet repeatCount { char[ 255 ] uint8x `" ++ [233]%N ++ runes_of_ascii "` , } MetaData pack { As Foo // c
+, }")).
+Eval vm_compute in ("<<<M136>>>" ++ check (runes_of_ascii "// a // b
+options { // " ++ [128512]%N ++ runes_of_ascii " emoji
+calculatedFrom=
+'\x00'	; BodyLength = true ;asx // packet A { u8 x, }
+= true }")).
+Eval vm_compute in ("<<<M1385>>>" ++ check (runes_of_ascii "// top
+packet orderItem {
+    u8 a,// c5a
 }
 
-packet repeatCount {
-    char[255] uint8x `" ++ [233]%N ++ runes_of_ascii "`,
-}
-
-MetaData pack {
-    As Foo,
-}")).
-Eval vm_compute in ("<<<M1190>>>" ++ check (runes_of_ascii "MetaData leftPad { chars MetaDataX , } packet repeatCount { char[ 255 ] uint8x `" ++ [233]%N ++ runes_of_ascii "` , } MetaData pack { As Foo , }
-// c
-")).
-Eval vm_compute in ("<<<M1169>>>" ++ check (runes_of_ascii "MetaData leftPad { chars MetaDataX , } packet repeatCount { char[ 255 ] uint8x // c
-`" ++ [233]%N ++ runes_of_ascii "` , } MetaData pack { As Foo , }")).
-Eval vm_compute in ("<<<M967>>>" ++ check (runes_of_ascii "packet A {
-    match k as n {
-        ""x\
-y"" : B,
-        [""x\
-y"", 1] : C,
-        [1,2,3,4,5,""x\
-y""] : D,
-    },
-}")).
-Eval vm_compute in ("<<<M962>>>" ++ check (runes_of_ascii "packet A {
-    Inner {
-        u8 x `tab
-	x`,
-        Deep {
-            u8 y `tab
-	x`,
-        },
-    },
-}")).
-Eval vm_compute in ("<<<M353>>>" ++ check (runes_of_ascii "options { _x
-    =
-    ""`tick`""	;matchKey=
-""it's""
-;	options1
-    = u16 ; stringy= true
-    // c
-    }
-")).
-Eval vm_compute in ("<<<M875>>>" ++ check (runes_of_ascii "packet A {
+// c6
+root packet newOrder {
+    orderItem,
+    u8 x,
+}// c16")).
+Eval vm_compute in ("<<<M895>>>" ++ check (runes_of_ascii "packet A {
   match k as n {
-    [""a"", ""bb"", 007, ""d"", ""e"", 66, ""g"", ""h"", 9] : B,
+    [1, ""bb"", 007, ""d"", 5, ""f"", 7, ""h"", 9, ""j"", 11] : B,
     2 : C
   },
 }")).
-Eval vm_compute in ("<<<M389>>>" ++ check (runes_of_ascii "root packet SimpleMessage {
-    uint16 MsgType `" ++ [28040; 24687; 31867; 22411]%N ++ runes_of_ascii "`,
-    string JsonBody `Json" ++ [23383; 31526; 20018; 28040; 24687; 20307]%N ++ runes_of_ascii "`,
+Eval vm_compute in ("<<<M900>>>" ++ check (runes_of_ascii "packet A {
+  match k as n {
+    [1, 22, ""c c"", 4, 5, ""f"", 7, 8, ""i"", 10, 11] : B
+    2 : C
+  },
 }")).
-Eval vm_compute in ("<<<M639>>>" ++ check (runes_of_ascii "
+Eval vm_compute in ("<<<M863>>>" ++ check (runes_of_ascii "packet A {
+  match k as n {
+    [""a"", ""bb"", 007, ""d"", ""e"", 66, ""g"", ""h""] : B
+    2 : C
+  },
+}")).
+Eval vm_compute in ("<<<M842>>>" ++ check (runes_of_ascii "packet A {
+  match k as n {
+    [""a"", ""bb"", ""c c"", ""d"", ""e"", ""f"", ""g""] : B
+    2 : C
+  },
+}")).
+Eval vm_compute in ("<<<M856>>>" ++ check (runes_of_ascii "packet A {
+  match k as n {
+    [1, ""bb"", 007, ""d"", 5, ""f"", 7, ""h""] : B,
+    2 : C
+  },
+}")).
+Eval vm_compute in ("<<<M557>>>" ++ check (runes_of_ascii "
 packet
+     {match u128 as lengthOf
+{
+//	t
+// `tick` ""quote"" 'q'
+255 : x ,
+    } ,	}")).
+Eval vm_compute in ("<<<M553>>>" ++ check (runes_of_ascii "
+
     asx {match u128 as lengthOf
 {
 //	t
 // `tick` ""quote"" 'q'
 255 : x ,
-    } ,	"" }")).
-Eval vm_compute in ("<<<M599>>>" ++ check (runes_of_ascii "
-packet
-    asx {match u128 as lengthOf
-{
-//	t
-// `tick` ""quote"" 'q'
-255 x : ,
     } ,	}")).
-Eval vm_compute in ("<<<M1307>>>" ++ check (runes_of_ascii "  packet
-orderItem 
-{
-	u8
-    a
-    , 
-}root
-packet
-newOrder{ orderItem	, 
-u8
-x
-	,
-}")).
-Eval vm_compute in ("<<<M1302>>>" ++ check (runes_of_ascii "packet order_item {
-    u8 a,
-}
-root packet new_order {
-    order_item,
-    u8 x,
-}
-")).
-Eval vm_compute in ("<<<M1771>>>" ++ check (runes_of_ascii "options {
-    FixedStringPadFromLeft = true;
-}
-
-root packet P {
-    char[4] z,
-}")).
-Eval vm_compute in ("<<<M1545>>>" ++ check (runes_of_ascii "
-
-  packet
-
-    body {
-
-    i32
-    f32a`{ , }`,
-    } options// c
-  { }")).
-Eval vm_compute in ("<<<M807>>>" ++ check (runes_of_ascii "packet A {
+Eval vm_compute in ("<<<M824>>>" ++ check (runes_of_ascii "packet A {
   match k as n {
-    [""a"", 22, ""c c"", 4] : B
+    [""a"", ""bb"", 007, ""d"", ""e""] : B
     2 : C
   },
 }")).
-Eval vm_compute in ("<<<M1441>>>" ++ check (runes_of_ascii "
-
-  //	t
-  options  {
-	roots	=	""\n""
-;
-o
-//
-  = '0' ;tag= true }
-")).
-Eval vm_compute in ("<<<M534>>>" ++ check (runes_of_ascii "packet uint8x
+Eval vm_compute in ("<<<M464>>>" ++ check (runes_of_ascii "packet uint8x
 { match pack
     as msg_type	{
-    0123456789 :	")).
-Eval vm_compute in ("<<<M1462>>>" ++ check (runes_of_ascii "packet msg_type {
-    repeat zchar[007] Logon `two words`,
-}")).
-Eval vm_compute in ("<<<M148>>>" ++ check (runes_of_ascii "options
-{
-    a1	=""packet""// a // b
-; } // @lengthOf(")).
-Eval vm_compute in ("<<<M1211>>>" ++ check (runes_of_ascii "packet body { i32 f32a `{ , }` , // c
-} options { }")).
-Eval vm_compute in ("<<<M1437>>>" ++ check (runes_of_ascii "  MetaData
-	lengthOf	{ Header
-o 
-`doc` 
+    0123456789 :	float
+}
 ,
-	}
-")).
-Eval vm_compute in ("<<<M1223>>>" ++ check (runes_of_ascii "// top
-packet // c0
-x { // c2
-}
-    // c3
-")).
-Eval vm_compute in ("<<<M1068>>>" ++ check (runes_of_ascii "options { a = 1 // c b = 2; // d}")).
-Eval vm_compute in ("<<<M1837>>>" ++ check (runes_of_ascii "MetaData M {
+}")).
+Eval vm_compute in ("<<<M960>>>" ++ check (runes_of_ascii "packet A {
+    B b `tab
+	x`,
+    B `tab
+	x`,
+    repeat B bs `tab
+	x`,
+}")).
+Eval vm_compute in ("<<<M1904>>>" ++ check (runes_of_ascii "
+MetaData  M{ 
+u8	x
+`a
+    b
+  c` , T
+	t
+
+    `a
+    b
+  c`,
+
 }
 
+")).
+Eval vm_compute in ("<<<M784>>>" ++ check (runes_of_ascii "packet A {
+  match k as n {
+    [""a"", 22] : B,
+    2 : C
+  },
+}")).
+Eval vm_compute in ("<<<M775>>>" ++ check (runes_of_ascii "packet A {
+  match k as n {
+    [""a""] : B,
+    2 : C
+  },
+}")).
+Eval vm_compute in ("<<<M1242>>>" ++ check (runes_of_ascii "root packet
+    P {
+
+    char
+	c
+    , u8  x 
+,
+
+}
+")).
+Eval vm_compute in ("<<<M181>>>" ++ check (runes_of_ascii "options{ packetx=// " ++ [27880; 37322]%N ++ runes_of_ascii "
+string Logon // " ++ [27880; 37322]%N ++ runes_of_ascii "
+=  int8}")).
+Eval vm_compute in ("<<<M755>>>" ++ check (runes_of_ascii "string i8 ) } u8 [ uint32 ] } = uint8 '\x00'")).
+Eval vm_compute in ("<<<M1711>>>" ++ check (runes_of_ascii "
+options
+{
+	int	=
+char[]
+;
+}
+    //
+")).
+Eval vm_compute in ("<<<M1387>>>" ++ check (runes_of_ascii "packet A {
+    u8 x `tab
+    	x`,
+}")).
+Eval vm_compute in ("<<<M766>>>" ++ check (runes_of_ascii "Dr1UAAa-*U|u3S?xE-Vr&9^'H>gI<.E")).
+Eval vm_compute in ("<<<M1584>>>" ++ check (runes_of_ascii "  // c" ++ [133]%N ++ runes_of_ascii "
+    	packet A
+    {} ")).
+Eval vm_compute in ("<<<M1706>>>" ++ check (runes_of_ascii "MetaData	// c
+  u	{ 
+} ")).
+Eval vm_compute in ("<<<M1069>>>" ++ check (runes_of_ascii "// a// bpacket A {}")).
+Eval vm_compute in ("<<<M1133>>>" ++ check (runes_of_ascii "MetaData u
 // c
-options {
-}")).
-Eval vm_compute in ("<<<M1542>>>" ++ check (runes_of_ascii "MetaData tag
-{
+{ }")).
+Eval vm_compute in ("<<<M1031>>>" ++ check (runes_of_ascii "packet A {
 }
-	    // c
-")).
-Eval vm_compute in ("<<<M217>>>" ++ check (runes_of_ascii "root	packet falsey
-{
-}
-")).
-Eval vm_compute in ("<<<M1793>>>" ++ check (runes_of_ascii "// a
-// b
-packet A {
-}")).
-Eval vm_compute in ("<<<M244>>>" ++ check (runes_of_ascii "MetaData u128{} //x")).
-Eval vm_compute in ("<<<M1012>>>" ++ check (runes_of_ascii "// c" ++ [8232]%N ++ runes_of_ascii "
-packet A {
-}")).
-Eval vm_compute in ("<<<M979>>>" ++ check (runes_of_ascii "packet A {
-}// c" ++ [12288]%N)).
-Eval vm_compute in ("<<<M378>>>" ++ check (runes_of_ascii "// @lengthOf(
-
-")).
-Eval vm_compute in ("<<<M1040>>>" ++ check (runes_of_ascii "// c 	")).
-Eval vm_compute in ("<<<M728>>>" ++ check (runes_of_ascii "		")).
+// c" ++ [11]%N)).
+Eval vm_compute in ("<<<M1014>>>" ++ check (runes_of_ascii "packet A {
+}// c" ++ [8233]%N)).
+Eval vm_compute in ("<<<M626>>>" ++ check (runes_of_ascii "
+packet
+    as")).
+Eval vm_compute in ("<<<M1060>>>" ++ check (runes_of_ascii "// c x")).
+Eval vm_compute in ("<<<M746>>>" ++ check (runes_of_ascii "UXk")).
